@@ -301,6 +301,13 @@ func (fr *Frame) backEdge(p, h *ssa.BasicBlock, cond Term) {
 		}
 	}
 	ord := fr.loopOrd[h]
+	// ghost updates of the back edge act on a private copy of the state
+	saved := fr.st
+	fr.st = fr.st.clone()
+	defer func() { fr.st = saved }()
+	for _, gs := range spec.Sets {
+		fr.applyLoopGhostSet(gs, h, subst)
+	}
 	for _, inv := range spec.Invs {
 		e := fr.env(h)
 		e.subst = subst
@@ -1319,4 +1326,45 @@ func (fr *Frame) selectInstr(x *ssa.Select) {
 	}
 	fr.tuples[x] = tup
 	fr.vals[x] = "unit"
+}
+
+// applyLoopGhostSet performs a ghost update on a back edge: plain names denote
+// the values at the loop head of this iteration, next.x the values the next
+// iteration starts with; heap reads see the state at the back edge.
+func (fr *Frame) applyLoopGhostSet(gs *GhostSet, h *ssa.BasicBlock, subst map[ssa.Value]Term) {
+	c := fr.c
+	g, ok := c.P.Specs.Ghosts[gs.Name]
+	if !ok {
+		c.unsupported("loop ghost set of unknown ghost " + gs.Name)
+		return
+	}
+	e := fr.env(h)
+	e.subst = map[ssa.Value]Term{}
+	for _, in := range h.Instrs {
+		if ph, ok := in.(*ssa.Phi); ok {
+			e.subst[ph] = fr.vals[ph]
+		}
+	}
+	ne := fr.env(h)
+	ne.subst = subst
+	e.next = ne
+	cl := &Clause{Label: "loop-set-" + gs.Name, Src: gs.Src, Where: fr.fc0().Where}
+	val, err := e.Value(gs.Val)
+	if err != nil {
+		fr.bindingFailure(cl, err)
+		return
+	}
+	var idx []Term
+	for _, a := range gs.Args {
+		tv, err := e.Value(a)
+		if err != nil {
+			fr.bindingFailure(cl, err)
+			return
+		}
+		idx = append(idx, tv.T)
+	}
+	s, _, _ := e.ghostSort(g)
+	name := ghostCompName(g)
+	cur := c.comp(fr.st, name, s)
+	c.setComp(fr.st, name, storeN(cur, idx, val.T))
 }
